@@ -213,7 +213,8 @@ PROPS = {
     'C04': {
         'lean_targets': ['Cqos.Props.C04'],
         'theorems': ['Cqos.C04.tstep_inv', 'Cqos.C04.trun_inv', 'Cqos.C04.c04_item_time', 'Cqos.C04.c04_cumulative',
-                     'Cqos.C04.c04_batches'],
+                     'Cqos.C04.c04_batches', 'Cqos.C04.wstep_inv', 'Cqos.C04.c04_window', 'Cqos.C04.c04_window_count',
+                     'Cqos.C04.c04_sent_sorted'],
         'runs': [{'cmd': 'lstepper', 'args': ['-family', 'mixed']},
                  {'cmd': 'blackbox', 'args': ['-scenario', 'limit']}],
         'monitor_prefix': ['C04'],
@@ -221,10 +222,12 @@ PROPS = {
         'level_text': ('Lean theorems on the limit machine for every action list (every arrival pattern and consumer speed): the '
                        'i-th element leaves no earlier than t0 + floor(i/Quantity)*Interval, hence at most '
                        'Quantity*(floor((T-t0)/Interval)+1) elements have left by reading T; a batch forwards at most Quantity '
-                       'elements. The runtime assumptions (monotone clock; time.Sleep(d) returns no earlier than d) are enabling '
+                       'elements; batch starts are Interval apart and element i leaves between the starts of batches floor(i/Q) and '
+                       'floor(i/Q)+1, hence for every a and W at most Quantity*(floor(W/Interval)+2) elements left at a reading in '
+                       '[a, a+W] (c04_window_count). The runtime assumptions (monotone clock; time.Sleep(d) returns no earlier than d) are enabling '
                        'conditions of the machine. pass() and delay() are tied by the stepper (delay measured never to return early)'),
-        'level_note': ('partial: ClockOK is assumed of the Go runtime; the window form (floor(W/Interval)+2) is implied by the batch '
-                       'spacing but only the cumulative form is kernel-proved; loop/transfer glue is covered by black-box runs and facts'),
+        'level_note': ('partial: ClockOK is assumed of the Go runtime; "left the output" is the completion of the discipline\'s send (a consumer '
+                       'that lets the output buffer fill sees a burst of its own making); loop/transfer glue is covered by black-box runs and facts'),
         'rule': 'scripts of feed/closein/pass/delay over Quantity 1..100, Interval 0.2..2 ms, element counts 0, <Q, =Q, multiples, random',
         'trusted_base': ['verif hook stepper for limit'],
         'assumptions': ['ClockOK: monotone clock, Sleep(d) lasts at least d'],
